@@ -256,6 +256,9 @@ pub fn to_string_wide<T>(ty: &T) -> String
 where T: quote::ToTokens,
 {
     let mut type_str = quote! {#ty}.to_string();
+    // the printed token stream of a long item is wrapped over several lines, 
+    // a token at a line boundary must still be surrounded by spaces
+    type_str = type_str.replace("\r\n"," ").replace('\n'," ");
     type_str = space_around_chars(type_str, &CHAR_SET);
     format!(" {type_str} ")
 }
